@@ -34,6 +34,8 @@ def jobs(tier, seed):
     n = 32 if tier == "quick" else 96
     js = [{"sub": "bfs", "chunk": i, "of": n} for i in range(n)]
     js.append({"sub": "bfs", "chunk": 1, "of": n, "hashseed": 1 + seed % 1000, "primary": False})
+    # a 29-operation core alphabet explored much deeper, one exact (fully de-duplicated) search per seed circuit
+    js += [{"sub": "bfs-core", "seed_idx": i, "depth": 7 if tier == "quick" else 9} for i in range(len(seed_circuits()))]
     return js
 
 
@@ -116,6 +118,18 @@ def alphabet(names):
         ops.append(["fill_blackbox", "k", ch])
     ops.append(["fill_blackbox", "nok", "f1"])
     return ops
+
+
+def core_alphabet():
+    return [["add", "a", "input", None, None, False], ["add", "a", "buf", None, None, False], ["add", "b", "buf", None, None, False],
+            ["add", "b", "and", None, None, False], ["add", "b", "not", ["a"], None, False], ["add", "b", "and", ["a"], ["a"], False],
+            ["add", "b", "buf", ["q"], ["a"], False], ["add", "a", "and", None, None, True], ["add", "b", "x", None, None, False],
+            ["connect", "a", "b"], ["connect", "b", "a"], ["connect", "a", "k.i"], ["connect", "k.o", "b"], ["connect", "k.o", "a"],
+            ["connect", "b", "k.i"], ["connect", "k.i", "b"], ["connect", ["a", "b"], "b"],
+            ["disconnect", "a", "b"], ["disconnect", "k.o", "b"], ["remove", "a"], ["remove", "k.i"], ["remove", "k.o"], ["set_output", "b", True],
+            ["add_blackbox", "k", None], ["add_blackbox", "k", {"i": "a", "o": "b"}], ["add_blackbox", "k", {"i": "a", "zz": "b"}],
+            ["add_subcircuit", "c1", "s", {"x": "a", "g": "b"}], ["add_subcircuit", "c2", "s", {"x": "a"}], ["add_subcircuit", "c2", "k", None],
+            ["fill_blackbox", "k", "f1"], ["fill_blackbox", "k", "f3"], ["fill_blackbox", "k", "f2"], ["fill_blackbox", "s_m", "f1"]]
 
 
 def seed_circuits():
@@ -280,8 +294,26 @@ def make_seed(label):
     return space.build(desc)
 
 
+def run_core(job):
+    acc = Acc(job)
+    kids = children()
+    ops = core_alphabet()
+    model = Model(acc, kids, ops)
+    desc = seed_circuits()[job["seed_idx"]]
+    st = explore.bfs([([desc], space.build(desc), frozenset())], snapshot.clone, snapshot.key, model.menu, model.apply,
+                     job["depth"], on_state=model.on_state, on_trans=model.on_trans, stop=acc.out_of_time)
+    acc.states += st["states"]
+    acc.nontrivial = st["states"] - 1
+    acc.extra["core_alphabet_size"] = len(ops)
+    acc.extra["core_states_by_depth"] = {f"seed{job['seed_idx']}": st["by_depth"]}
+    acc.sample({"seed": desc, "ops_sample": ops[:3], "depth": job["depth"]})
+    return acc.result()
+
+
 def run(job):
     common.setup_paths()
+    if job["sub"] == "bfs-core":
+        return run_core(job)
     acc = Acc(job)
     b = bounds(job["tier"])
     kids = children()
